@@ -31,6 +31,13 @@ pub fn run(mut config: Config) -> ::anyhow::Result<()> {
         ));
     }
 
+    if config.protocol.max_response_peers > common::MAX_RESPONSE_PEERS_LIMIT {
+        return Result::Err(anyhow::anyhow!(
+            "protocol.max_response_peers can not be larger than {}, since responses would not fit in the send buffer",
+            common::MAX_RESPONSE_PEERS_LIMIT
+        ));
+    }
+
     if config.socket_workers == 0 {
         config.socket_workers = available_parallelism().map(Into::into).unwrap_or(1);
     };
